@@ -106,7 +106,7 @@ Section OneFrame.
   Proof.
     intros scr Hs Hsync. cbv zeta. rewrite !exec_list_app.
     (* pass 1 commands: image erases *)
-    destruct (p1_cmds HP) as [Hce Hcm].
+    destruct (sp_cmds HP) as [Hce Hcm].
     destruct (exec_image_erases o h w cmds scr Hs Hce) as (Hs1 & Hg1 & Hp1).
     set (s1 := exec_list o scr cmds) in *.
     (* pass 2 *)
@@ -127,7 +127,7 @@ Section OneFrame.
       - apply Forall_forall. intros p Hp. apply valid_inside. apply ps_all. auto.
       - destruct (row_exists h w nw r (good_dims _ _ _ _ GN) Hr) as (rn & Hrn & _).
         destruct (row_exists h w old r (good_dims _ _ _ _ Gold) Hr) as (ro & Hro & _).
-        destruct (row_exists h w M r (p1_dims HP) Hr) as (rm & Hrm & _).
+        destruct (row_exists h w M r (sp_dims HP) Hr) as (rm & Hrm & _).
         assert (Hsy : u = MEmpty -> gget (sgrid s1) r c = Some (den o h w old r c)).
         { intros Hue. rewrite Hg1. apply Hsync; auto. }
         destruct (cover_row o h w u old nw M dec cmds imgs Hsp Gold GN Hu HP r rn ro rm Hr Hrn Hro Hrm
@@ -136,7 +136,7 @@ Section OneFrame.
         eapply (paints_rows_in o nw old M 0 r); eauto. }
     (* pass 3 *)
     assert (Himgs : forall r c f i, In (r, c, f, i) imgs -> r < h /\ c < w /\ 1 <= snd (isz o i)).
-    { intros r c f i Hin. apply (p1_imgs HP) in Hin. destruct Hin as (x & Hx & Hk & _ & _).
+    { intros r c f i Hin. apply (sp_imgs HP) in Hin. destruct Hin as (x & Hx & Hk & _ & _).
       pose proof (good_cells _ _ _ _ GN r c x Hx) as Hg. unfold cell_good in Hg. rewrite Hk in Hg.
       destruct (gget_some_bounds nw h w r c x (good_dims _ _ _ _ GN) Hx). lia. }
     destruct (exec_pass3 o h w imgs s2 Hs2 Himgs) as (Hs3 & Hg3 & Hp3).
@@ -149,17 +149,17 @@ Section OneFrame.
       + intros. discriminate.
       + apply Hs2.
       + apply Forall_forall. intros p Hp. unfold imgs_paints in Hp. apply in_flat_map in Hp.
-        destruct Hp as ([[[r0 c0] f] i] & Hin & Hp). apply (p1_imgs HP) in Hin.
+        destruct Hp as ([[[r0 c0] f] i] & Hin & Hp). apply (sp_imgs HP) in Hin.
         destruct Hin as (x & Hx & Hk & Hf & _). eapply img_paints_conform; eauto.
       + apply Forall_forall. intros p Hp. unfold imgs_paints in Hp. apply in_flat_map in Hp.
-        destruct Hp as ([[[r0 c0] f] i] & Hin & Hp). apply (p1_imgs HP) in Hin.
+        destruct Hp as ([[[r0 c0] f] i] & Hin & Hp). apply (sp_imgs HP) in Hin.
         destruct Hin as (x & Hx & Hk & Hf & _). eapply img_paints_conform; eauto.
       + destruct (redrawn o h w nw dec r c) eqn:Ered.
         * right. unfold redrawn in Ered.
           destruct (cover_img o h w nw r c) as [[r0 c0]|] eqn:Ecov; [|discriminate].
           apply cover_img_some in Ecov. destruct Ecov as (Hr0 & Hc0 & f & i & Hi & Hin).
           pose proof Hi as Hi2. apply img_at_some in Hi2. destruct Hi2 as (x & Hx & Hk & Hf).
-          assert (Hmem : In (r0, c0, f, i) imgs) by (apply (p1_imgs HP); eauto).
+          assert (Hmem : In (r0, c0, f, i) imgs) by (apply (sp_imgs HP); eauto).
           unfold in_rect in Hin. apply andb_true_iff in Hin. rewrite !in_range_true in Hin.
           exists (PBlanks (Nat.min r (h - 1)) c0 f (Nat.min (snd (isz o i)) (w - c0))). split.
           -- unfold imgs_paints. apply in_flat_map. exists (r0, c0, f, i). split; auto.
@@ -169,9 +169,9 @@ Section OneFrame.
     - intros i r c. rewrite Hp3, Hp2, Hp1, Hcm. split.
       + intros [[H1 H2]|[f Hin]].
         * left. auto.
-        * right. apply (p1_imgs HP) in Hin. destruct Hin as (x & Hx & Hk & _ & Hd). eauto.
+        * right. apply (sp_imgs HP) in Hin. destruct Hin as (x & Hx & Hk & _ & Hd). eauto.
       + intros [[H1 H2]|(x & Hx & Hk & Hd)].
         * left. auto.
-        * right. exists (cface x). apply (p1_imgs HP). eauto.
+        * right. exists (cface x). apply (sp_imgs HP). eauto.
   Qed.
 End OneFrame.
